@@ -10,7 +10,7 @@ import vlib
 from engines import kv
 
 DUR = os.path.join(vlib.SPEC, "Durability")
-SPEC_MODULES = [("Durability", "Durability")]
+SPEC_MODULES = [("Durability", "Durability"), ("Durability", "ManifestRot")]
 
 BUGS = [("Bug_AckBeforeSync.cfg", "AckedRecovered"), ("Bug_DelWALEarly.cfg", None),
         ("Bug_NoSSTSync.cfg", "OpenSucceeds"), ("Bug_NoWALDirSync.cfg", None)]
@@ -30,7 +30,26 @@ PROPS = {
 }
 
 
+ROT_BUGS = [("BugRot_MarkerBeforeSync.cfg", "MarkerNeverDangling"), ("BugRot_NoManifestDirSync.cfg", "MarkerNeverDangling"),
+            ("BugRot_NoMarkerDirSync.cfg", None)]
+
+
+def design_rot(run):
+    """C22: MANIFEST append / rotation / marker protocol (ManifestRot.tla)"""
+    vlib.sany(DUR, "ManifestRot")
+    for cfg, expect in ROT_BUGS:
+        r = vlib.tlc_must_fail(DUR, "ManifestRot", cfg, expect=expect, workers=2, timeout=300)
+        run.design["ManifestRot/" + cfg] = dict(caught=r.violation, generated=r.generated)
+    cfg = open(os.path.join(DUR, "ManifestRot.cfg")).read()
+    if run.tier != "quick":
+        cfg = cfg.replace("MaxEdits = 4", "MaxEdits = 7").replace("RotateAt = {2, 3}", "RotateAt = {1, 3, 4, 7}")
+    r = vlib.tlc_must_pass(DUR, "ManifestRot", "R.cfg", workers=4, timeout=600, extra_files={"R.cfg": cfg.encode()})
+    run.add_design("ManifestRot", r)
+
+
 def design(run):
+    if run.prop == "C22":
+        design_rot(run)
     vlib.sany(DUR, "Durability")
     for cfg, expect in BUGS:
         r = vlib.tlc_must_fail(DUR, "Durability", cfg, expect=expect, workers=4, timeout=600)
